@@ -209,6 +209,23 @@ def lines_of_report(d):
 
 def scripted_outcome(graph, tol, max_iter, verbose, ffp):
     g = copy.deepcopy(graph)
+    # PRE-HISTORY on the same Graph object that must not show in the report (the model is evaluated as for a fresh graph):
+    #   1: chi2 queried at another state, then the state put back (a cached chi2 would now be stale)
+    #   2: an earlier optimizer call, then the state and the fixed flag put back
+    hist = (max_iter + (1 if verbose else 0)) % 3
+    with quiet_numpy(), contextlib.redirect_stdout(io.StringIO()):
+        if hist == 1:
+            g._vertices[1].pose = PoseR2([5.0, 0.0])
+            g.calc_chi2()
+            g._vertices[1].pose = PoseR2([0.0, 0.0])
+        elif hist == 2:
+            try:
+                g.optimize(tol=0.0, max_iter=2, fix_first_pose=ffp, verbose=False)
+            except Exception:  # noqa: BLE001
+                pass
+            g._vertices[1].pose = PoseR2([0.0, 0.0])
+            g._vertices[0].pose = PoseR2([ANCHOR0[0], ANCHOR0[1]])
+            g._vertices[0].fixed = False
     res, exc, out = call_optimize(g, tol, max_iter, verbose, ffp)
     d = dict(report_dict(res)) if res is not None else dict(EMPTY_REPORT)
     d['raised'] = exc
